@@ -82,7 +82,7 @@ pub fn plan(property: &str) -> Option<CheckPlan> {
             ],
             real: R_REAL.to_vec(),
             stubbed: R_STUB.to_vec(),
-            items: vec![PlanItem { family: &rsim::pubsub::PS_CLEAN, quick: 200_000, thorough: 5_000_000 }],
+            items: vec![PlanItem { family: &rsim::pubsub::PS_CLEAN, quick: 200_000, thorough: 5_000_000 }, PlanItem { family: &rsim::pubsub::PS_FAIL_RANDOM, quick: 60_000, thorough: 1_500_000 }],
         }),
         "C02" => Some(CheckPlan {
             property: "C02",
